@@ -1,4 +1,5 @@
 (** * C12: all per-module correspondence / property checks in one place. *)
-From Irismod Require Export Genesis.Record.
+From Irismod Require Genesis.Record Genesis.Htlc.
 
-Definition check_all (c : Genesis.Record.case) : Z * Z * Z := check_record c.
+Definition check_record := Genesis.Record.check_record.
+Definition check_htlc := Genesis.Htlc.check_htlc.
